@@ -180,67 +180,84 @@ class ImplWorld:
         coins = [{"denom": d, "amount": str(n)} for (a, d), n in sorted(l.bal.items()) if a == self.self and n > 0]
         self.h.call({"op": "bal", "addr": self.self, "coins": coins})
 
+    def _exec_one(self, l, x, faults, counters):
+        """execute one decoded message against the ledger `l` (all or nothing); -> (ok, reply payload on success)"""
+        k = x["k"]
+        blocked = faults.get("blocked", [])
+        if k == "create_denom":
+            return x["sender"] == self.self, {"ok_nodata": True}
+        if k == "mint":
+            amt = x["coin"]["amount"]
+            if x["sender"] != self.self or amt == 0:
+                return False, None
+            l.supply[x["coin"]["denom"]] = l.supply.get(x["coin"]["denom"], 0) + amt
+            l.add(x["to"], x["coin"]["denom"], amt)
+            return True, {"ok_nodata": True}
+        if k == "burn":
+            amt = x["coin"]["amount"]
+            if x["sender"] != self.self or amt == 0 or l.get(x["from"], x["coin"]["denom"]) < amt \
+                    or l.supply.get(x["coin"]["denom"], 0) < amt:
+                return False, None
+            l.supply[x["coin"]["denom"]] = l.supply.get(x["coin"]["denom"], 0) - amt
+            l.sub(x["from"], x["coin"]["denom"], amt)
+            return True, {"ok_nodata": True}
+        if k in ("bank_send", "send"):
+            if k == "send" and x["from"] != self.self:
+                return False, None
+            if not x["coins"] or x["to"] in blocked:
+                return False, None
+            trial = l.clone()
+            if not trial.move(self.self, x["to"], x["coins"]):
+                return False, None
+            l.bal = trial.bal
+            return True, {"ok_nodata": True}
+        if k == "wasm":
+            return (x["sender"] == self.self and not faults.get("fail_oracle")), {"ok_nodata": True}
+        if k == "transfer":
+            idx = counters["transfers"]
+            counters["transfers"] += 1
+            c = x["coin"]
+            ok = (x["sender"] == self.self and c["amount"] > 0 and l.get(self.self, c["denom"]) >= c["amount"]
+                  and idx not in faults.get("fail_transfer", []))
+            if not ok:
+                return False, None
+            seq = l.next_seq
+            l.sub(self.self, c["denom"], c["amount"])
+            l.next_seq = seq + 1
+            l.pkts.append({"seq": seq, "channel": x["channel"], "sender": x["sender"], "receiver": x["receiver"],
+                           "coin": {"denom": c["denom"], "amount": str(c["amount"])}, "state": "pending"})
+            return True, {"ok": seq}
+        if k in ("swap_in", "swap_out"):
+            return True, {"ok_nodata": True}
+        return False, None
+
     def _dispatch(self, l, msgs, faults, calls, decoded_log):
-        transfers = 0
+        """CosmWasm dispatch of a response: messages in order; a sub-message with `reply_on` success / always gets
+        `reply(id, ok data)` after it succeeded, one with `reply_on` error / always gets `reply(id, err)` after it failed
+        (its own effects discarded) and the transaction goes on if that reply succeeds; any other failure, and a failing
+        reply, fail the transaction"""
+        counters = {"transfers": 0}
         for m in msgs:
             x = decode_msg(m)
             decoded_log.append(x)
-            k = x["k"]
-            if k == "create_denom":
-                if x["sender"] != self.self:
-                    return False
-            elif k == "mint":
-                amt = x["coin"]["amount"]
-                if x["sender"] != self.self or amt == 0:
-                    return False
-                l.supply[x["coin"]["denom"]] = l.supply.get(x["coin"]["denom"], 0) + amt
-                l.add(x["to"], x["coin"]["denom"], amt)
-            elif k == "burn":
-                amt = x["coin"]["amount"]
-                if x["sender"] != self.self or amt == 0 or l.get(x["from"], x["coin"]["denom"]) < amt:
-                    return False
-                l.supply[x["coin"]["denom"]] = l.supply.get(x["coin"]["denom"], 0) - amt
-                l.sub(x["from"], x["coin"]["denom"], amt)
-            elif k == "bank_send":
-                if not x["coins"] or not l.move(self.self, x["to"], x["coins"]):
-                    return False
-            elif k == "send":
-                if x["from"] != self.self or not x["coins"] or not l.move(self.self, x["to"], x["coins"]):
-                    return False
-            elif k == "wasm":
-                if x["sender"] != self.self or faults.get("fail_oracle"):
-                    return False
-            elif k == "transfer":
-                idx = transfers
-                transfers += 1
-                c = x["coin"]
-                ok = (x["sender"] == self.self and c["amount"] > 0 and l.get(self.self, c["denom"]) >= c["amount"]
-                      and idx not in faults.get("fail_transfer", []))
-                always = x["reply_on"] == "always"
-                if ok:
-                    seq = l.next_seq
-                    l.sub(self.self, c["denom"], c["amount"])
-                    l.next_seq = seq + 1
-                    l.pkts.append({"seq": seq, "channel": x["channel"], "sender": x["sender"], "receiver": x["receiver"],
-                                   "coin": {"denom": c["denom"], "amount": str(c["amount"])}, "state": "pending"})
-                    if always:
-                        self._sync_bal(l)
-                        r = self.h.call({"op": "reply", "id": x["id"], "result": {"ok": seq}})
-                        calls.append({"entry": "reply", "id": x["id"], "result_in": {"ok": seq}, "result": r})
-                        if outcome(r) != "ok":
-                            return False
-                else:
-                    if not always:
-                        return False
+            ro = x.get("reply_on") or "never"
+            ok, data = self._exec_one(l, x, faults, counters)
+            if ok:
+                if ro in ("always", "success"):
                     self._sync_bal(l)
-                    r = self.h.call({"op": "reply", "id": x["id"], "result": {"err": "submission failed"}})
-                    calls.append({"entry": "reply", "id": x["id"], "result_in": {"err": "submission failed"}, "result": r})
+                    r = self.h.call({"op": "reply", "id": x["id"], "result": data})
+                    calls.append({"entry": "reply", "id": x["id"], "result_in": data, "result": r})
                     if outcome(r) != "ok":
                         return False
-            elif k in ("swap_in", "swap_out"):
-                pass
             else:
-                return False
+                if ro not in ("always", "error"):
+                    return False
+                err = {"err": "submission failed" if x["k"] == "transfer" else "message failed"}
+                self._sync_bal(l)
+                r = self.h.call({"op": "reply", "id": x["id"], "result": err})
+                calls.append({"entry": "reply", "id": x["id"], "result_in": err, "result": r})
+                if outcome(r) != "ok":
+                    return False
         return True
 
     def run_exec(self, sender, funds, msg, faults, tx_index=0, entry="execute"):
